@@ -34,6 +34,7 @@ DECIDED = [
     "C08.8 a worker's cached remote session is keyed by host and port of its own login",
     "C08.9 results of replayed jobs (the producers of previous runs) are all kept: missing files raise, nothing is dropped or replaced",
     "C08.8p worker parameters are the net's own (no copy); C08.10 node/object lookup helpers agree (semantic tables)",
+    'C08.8s every parsed worker gets the slot of its suffix and joins its swarm in the iteration that creates it',
 ]
 NOT_DECIDED = ["which worker produces a state (schedule)"]
 MIN_INSTANCES = 30
